@@ -15,7 +15,10 @@ A5  modes_checksum(frame) = remainder of frame(x) by the generator, for every 56
     operations (xor, shifts, constant masks, lookups in the table shown linear by T1), hence is a linear map
     of the frame bits; it agrees with polynomial division on the zero frame and on all 56 / 112 unit
     vectors, hence everywhere.
-Not decided: the burst-error bound (a property of the generator polynomial, not of this code).
+E1  error detection, decided on the linear map A5 extracted (not on a constant of the checker): the 112
+    syndromes L(unit_k) are non-zero, pairwise different, and linearly independent inside every window of 24
+    consecutive bits - so no 1-bit, 2-bit or <= 24-bit burst corruption of a frame has checksum 0, and by A1
+    none of a valid DF17 frame is accepted as DF17.
 """
 import absint as A
 import runner
@@ -126,6 +129,7 @@ def a5_linear(prog, rep, chk):
             # 2. agreement with polynomial division on a basis
             tables = dict(E.tables)
             wrong = None
+            syn = {}
             for k in [None] + list(range(8 * n)):
                 val = 0 if k is None else 1 << k
                 env = {atoms[i]: (val >> (8 * (n - 1 - i))) & 0xFF for i in range(n)}
@@ -136,13 +140,60 @@ def a5_linear(prog, rep, chk):
                     wrong = 'expression not evaluable: %s' % e
                     break
                 want = poly_rem(val, 8 * n)
-                if got != want:
+                if k is not None:
+                    syn[8 * n - 1 - k] = got
+                if got != want and wrong is None:
                     wrong = 'frame with %s: checksum expression gives %#08x, polynomial division %#08x' % ('no bit set' if k is None else 'only bit %d set' % (8 * n - 1 - k), got, want)
-                    break
             rep.check(wrong is None, 'A5-polynomial-remainder', key + '#basis', chk['file'], wrong or '',
                       sample={'frame bits': 8 * n, 'basis vectors compared': 8 * n + 1})
+            if n == 14 and len(syn) == 112:
+                e1_error_detection(rep, chk, syn)
     finally:
         A.TERM_LIMIT = old
+
+
+def _rank(vs):
+    basis = {}
+    r = 0
+    for v in vs:
+        while v:
+            h = v.bit_length() - 1
+            if h in basis:
+                v ^= basis[h]
+            else:
+                basis[h] = v
+                r += 1
+                break
+    return r
+
+
+def e1_error_detection(rep, chk, syn):
+    """E1: the checksum of a 112-bit frame is the GF(2)-linear map extracted by A5, so the frame valid+e is
+    accepted as DF17 (A1: checksum 0) iff L(e) = 0.  Decided on the syndromes s_k = L(unit_k) of the extracted
+    expression: every s_k is non-zero (1-bit errors), the s_k are pairwise different (2-bit errors), and the
+    syndromes of every 24 consecutive bit positions are linearly independent (every burst of up to 24 bits)."""
+    site = chk['file']
+    zero = [k for k in range(112) if syn[k] == 0]
+    rep.check(not zero, 'E1-error-detection', 'single-bit#all-112-syndromes-nonzero', site,
+              'flipping frame bit %s leaves the checksum unchanged: a corrupted DF17 frame is accepted' % zero[:4],
+              sample={'syndromes': 112, 'zero': len(zero)})
+    seen = {}
+    dup = None
+    for k in range(112):
+        if syn[k] in seen and dup is None:
+            dup = (seen[syn[k]], k)
+        seen.setdefault(syn[k], k)
+    rep.check(dup is None, 'E1-error-detection', 'double-bit#6216-pairs-distinct-syndromes', site,
+              'flipping frame bits %s and %s together leaves the checksum unchanged' % (dup or (None, None)),
+              sample={'pairs': 112 * 111 // 2, 'distinct syndromes': len(seen)})
+    badw = None
+    for a in range(0, 112 - 24 + 1):
+        if _rank([syn[k] for k in range(a, a + 24)]) != 24:
+            badw = a
+            break
+    rep.check(badw is None, 'E1-error-detection', 'burst#89-windows-of-24-bits-independent', site,
+              'the syndromes of frame bits %s..%s are linearly dependent: some burst inside that window leaves the checksum unchanged' % (badw, (badw or 0) + 23),
+              sample={'windows': 89, 'rank of each': 24})
 
 
 def run(prog, rep, tier):
